@@ -17,8 +17,20 @@
      kind 3  k calls dispatched; Close; a ping req; the handlers return.
      kind 4  one outbound call begun; Close; a ping req; the peer's response.
      kind 5  k calls dispatched; a ping req (no Close); the handlers return.
+     kind 6  (V07) k OUTBOUND calls begun and in flight; a further beginCall is parked at
+             outbound.afterStateCheck (state check passed, exchange not yet registered); Close -- with
+             NO inbound call in flight, so the connection walks on to InboundClosed (k >= 1) or Closed
+             (k = 0) inside that very Close; the beginCall is released; the peer answers the others.
+     kind 7  (V07) the same with k >= 1 INBOUND calls dispatched instead (the connection stops in
+             StartClose); the handlers return at the end.
+     kind 8, 9  (V07) as 6, 7 with the beginCall parked at outbound.afterNewExchange (its exchange is
+             registered, the re-check is still to come): its own exchange holds the connection in
+             InboundClosed (StartClose under an inbound call); the re-check fails, the removal of
+             the exchange lets the connection close.
      by_channel: Close is Channel.Close / Connection.Close (the same steps of the connection).
-   observable:  state  #close(stopCh)  #error-frames (id code)*  ping-res-seen *)
+   observable:  state  #close(stopCh)  #error-frames (id code)*  ping-res-seen
+                kinds 6 .. 9 add:  outcome of the raced beginCall (20 = a call was returned, 22 = it failed
+                at the re-check with ErrConnectionClosed)   #outbound exchanges left *)
 From Coq Require Import ZArith List Bool.
 From Verif Require Import Base.Wrap Base.Wire Gen.GenConsts Model.CloseKernel Model.ConnClose.
 Import ListNotations.
@@ -73,6 +85,21 @@ Definition race_state (kind k code pos : Z) : sys :=
     let s2 := race_op s1 TCloser 0 in
     let s3 := race_op s2 (TPing 9) 0 in
     race_op s3 (TFinOut 1) 0
+  else if (kind =? 6) || (kind =? 8) then
+    (* the k earlier outbound calls get the ids 1..k (c.nextMessageID), the raced one k+1 *)
+    let s1 := fold_left (fun s _ => race_op s TCaller 0) others s0 in
+    let tid := length (thr s1) in
+    let s2 := race_op s1 TCaller (if kind =? 6 then 16 else 32) in
+    let s3 := race_op s2 TCloser 0 in
+    let s4 := race_resume s3 tid in
+    fold_left (fun s id => race_op s (TFinOut (id - 100)) 0) others s4
+  else if (kind =? 7) || (kind =? 9) then
+    let s1 := race_dispatch s0 others in
+    let tid := length (thr s1) in
+    let s2 := race_op s1 TCaller (if kind =? 7 then 16 else 32) in
+    let s3 := race_op s2 TCloser 0 in
+    let s4 := race_resume s3 tid in
+    race_finish_all s4 others
   else
     let s1 := race_dispatch s0 others in
     let s2 := race_op s1 (TPing 9) 0 in
@@ -85,9 +112,15 @@ Definition race_obs (s : sys) : list Z :=
   ++ put_list (fun r => [snd (fst r); snd r]) (g_replies (sh s))
   ++ [zb (existsb is_pong (thr s))].
 
+(* kinds 6 .. 9: the raced beginCall is thread number k (the k others were started before it) *)
+Definition race_caller_obs (s : sys) (k : Z) : list Z :=
+  [match nth_error (thr s) (Z.to_nat k) with Some (PDone o _) => o | _ => -1 end; zlen (outb (sh s))].
+
 Definition run_closerace (c : list Z) : list Z :=
   match c with
-  | kind :: k :: code :: pos :: _ => race_obs (race_state kind k code pos)
+  | kind :: k :: code :: pos :: _ =>
+      let s := race_state kind k code pos in
+      if (6 <=? kind) && (kind <=? 9) then race_obs s ++ race_caller_obs s k else race_obs s
   | _ => [-9]
   end.
 
@@ -111,5 +144,12 @@ Definition spec_closerace (kind k code : Z) : list Z :=
     if k =? 0 then [4; 1; 0; 0] else [4; 1; 0; 1]
   else if kind =? 4 then
     [4; 1; 0; 1]
+  else if (6 <=? kind) && (kind <=? 9) then
+    (* "new outbound calls fail locally": whatever state the Close left the connection in (StartClose
+       under an inbound call, InboundClosed under an outbound call, Closed when idle), the call start
+       that raced with it fails with the closed-connection error (outcome 22), its exchange is gone,
+       no error frame and nothing else is sent for it; the accepted calls drain and the connection
+       closes *)
+    [4; 1; 0; 0; 22; 0]
   else
     [1; 0; 0; 1].
